@@ -2,6 +2,7 @@ package props
 
 import (
 	"fmt"
+	"io"
 	"math/rand"
 	"strings"
 	"time"
@@ -268,6 +269,72 @@ func c13Registration(r *core.Run, idx int, rng *rand.Rand) {
 	}
 }
 
+// slowBody delivers the first part of a request body at once and the rest only after a given instant.
+type slowBody struct {
+	data  []byte
+	cut   int
+	until time.Time
+	stage int // bytes delivered so far
+}
+
+func (b *slowBody) Read(p []byte) (int, error) {
+	if b.stage >= len(b.data) {
+		return 0, io.EOF
+	}
+	end := len(b.data)
+	if b.stage < b.cut {
+		end = b.cut // the first part is there at once
+	} else if d := time.Until(b.until); d > 0 {
+		time.Sleep(d) // the rest only after the instant
+	}
+	n := copy(p, b.data[b.stage:end])
+	b.stage += n
+	return n, nil
+}
+
+// c13SlowUpload: the body of a POST-binding LogoutRequest trickles in and is complete only after the request's
+// NotOnOrAfter has passed. Whenever the handler looks at the clock after it has the request, the request has expired:
+// it must not be answered with Success. (The control request, valid for another hour, must still succeed.)
+func c13SlowUpload(r *core.Run, idx int, rng *rand.Rand) {
+	const wl = "slow_upload"
+	e := env.Static(env.Opts{})
+	d := stdSP(rng.Intn(4))
+	d.SLO = []spsim.SLO{{Binding: spsim.BindPost, Location: "https://sp.example/slo/" + plainString(rng, 4)}}
+	mustRegister(e.W, d, "appA")
+	expires := idx%4 != 3
+	l := conformantLogout(rng, d)
+	l.IssueInstant = tsFrac(time.Now().Add(-2*time.Second), 3)
+	deadline := time.Now().Add(150 * time.Millisecond)
+	if expires {
+		l.NotOnOrAfter = deadline.UTC().Format("2006-01-02T15:04:05.000000Z")
+	} else {
+		l.NotOnOrAfter = tsFrac(time.Now().Add(time.Hour), 0)
+	}
+	body := spsim.FormBody("SAMLRequest", spsim.B64([]byte(l.XML(rng))), "RelayState", "MKrelay")
+	sb := &slowBody{data: []byte(body), cut: len(body) - 8, until: deadline.Add(120 * time.Millisecond)}
+	call := e.Do(env.Req{Method: "POST", Path: env.PathSLO, BodyReader: sb, BodyLen: int64(len(body)), Body: "", CT: "application/x-www-form-urlencoded"})
+	class := fmt.Sprintf("slow_upload|expires_during_upload=%v", expires)
+	r.Eval(fmt.Sprintf("%s|%d", class, idx))
+	r.Count("slow_uploads", 1)
+	desc := map[string]any{"not_on_or_after": l.NotOnOrAfter, "body_complete_not_before": sb.until.UTC().Format(time.RFC3339Nano), "call_ended": call.T1.UTC().Format(time.RFC3339Nano)}
+	viol := func(clause, reason string) {
+		r.Violate(core.Violation{Clause: clause, Class: class, Reason: reason, Workload: wl, Index: idx, Case: desc, Observed: call.Describe()})
+	}
+	if call.Panic != "" {
+		viol("panic", call.Panic)
+		return
+	}
+	if expires && call.D.Success() {
+		viol("success_for_invalid_request", "LogoutResponse Success although NotOnOrAfter ("+l.NotOnOrAfter+") had passed before the request was even received completely")
+	}
+	if expires && !call.D.Success() {
+		r.Count("expired_during_upload_refused", 1)
+	}
+	if !expires && !call.D.Success() {
+		viol("valid_request_refused", fmt.Sprintf("a slowly uploaded request that is valid for another hour was not answered with Success (status %d)", call.D.Status))
+	}
+}
+
 func init() {
 	register(&Prop{
 		ID: "C13", Level: "exploration", DeathIsViolation: true,
@@ -284,9 +351,11 @@ func init() {
 			r.Require("deregistered_requests_checked", 100)
 			r.Require("reregistered_requests_checked", 100)
 			r.Require("tenant_sequence_requests", 100)
+			r.Require("slow_uploads", 30)
 			return []core.Workload{
 				{Name: "logout_requests", N: c.Pick(1200, 12000), Fn: c13Case},
 				{Name: "registration_changes", N: c.Pick(150, 1500), Fn: c13Registration},
+				{Name: "slow_upload", N: c.Pick(32, 160), Fn: c13SlowUpload},
 				{Name: "tenant_sequences", N: c.Pick(120, 1200), Fn: func(r *core.Run, idx int, rng *rand.Rand) {
 					tenantSequence(r, "tenant_sequences", idx, rng, true, false)
 				}},
